@@ -25,6 +25,9 @@ import (
 type C09Case struct {
 	WL      CompileWL   `json:"workload"`
 	SrcInfo int         `json:"srcinfo"`
+	// ProtoSrcInfo: the supplied descriptor protos carry source code info (as
+	// protoc --include_source_info writes them).
+	ProtoSrcInfo bool `json:"proto_with_source_info,omitempty"`
 	Clients []C09Client `json:"clients"`
 	Sched   Sched       `json:"sched"`
 }
@@ -39,6 +42,7 @@ var formNames = []string{"source", "ast", "parse", "proto"}
 func genC09(t *rapid.T) C09Case {
 	wl := genCompileWL(t, 6, false)
 	c := C09Case{WL: wl, SrcInfo: srcInfoModes[rapid.IntRange(0, len(srcInfoModes)-1).Draw(t, "srcinfo")]}
+	c.ProtoSrcInfo = rapid.IntRange(0, 2).Draw(t, "protoSrcInfo") == 0
 	req := genRequest(t, wl.names())
 	n := rapid.IntRange(1, 2).Draw(t, "nclients")
 	for i := 0; i < n; i++ {
@@ -169,6 +173,15 @@ func execC09(t *testing.T, c C09Case) *Verdict {
 	if err != nil {
 		panic(sim.HarnessFault{Msg: fmt.Sprintf("C09 cannot pre-parse its own workload: %v", err)})
 	}
+	if c.ProtoSrcInfo {
+		withInfo := refCompile(&c.WL, c.WL.names(), 1, nil)
+		for name, p := range supplied.protos {
+			var linked descriptorpb.FileDescriptorProto
+			if b, ok := withInfo.files[name]; ok && proto.Unmarshal(b, &linked) == nil {
+				p.SourceCodeInfo = linked.SourceCodeInfo
+			}
+		}
+	}
 	before := supplied.snapshot()
 	results := make([]compileResult, len(c.Clients))
 	var clients []sim.Client
@@ -227,8 +240,9 @@ func execC09(t *testing.T, c C09Case) *Verdict {
 				return viol("C09/descriptor-differs", "client %d: closure lacks %s", i, n).with(out)
 			}
 			want := ref.files[n]
-			if cl.Forms[n] == "proto" {
-				// a descriptor proto carries no AST, so no source info can be generated for it
+			if cl.Forms[n] == "proto" && c.SrcInfo != 0 {
+				// a descriptor proto carries no AST, so no source info can be generated for
+				// it (with source info switched off every form must come out without any)
 				if stripSourceInfo(got) != stripSourceInfo(want) {
 					return viol("C09/descriptor-differs", "client %d: %s supplied as %s differs from the all-source result (ignoring source info)", i, n, cl.Forms[n]).with(out)
 				}
